@@ -48,11 +48,13 @@ SPEC = {
         "btc": ("mism_btc", "pf_btc"),
         "btcb": ("mism_btcb", "pf_btcb"),
         "addre": ("mism_addre", None),
+        "api": ("mism_api", "pf_api"),
     },
     "must_be_true": ("alphabet_ok", "encx_len_ok", "decx_len_ok"),
     "case_of": case_of,
     "trusted_base": [
         "Model/Base58.v (hand-written specification: recode between bases 256 and 58 keeping one zero digit per leading zero; address = key ‖ version ‖ first 4 digest bytes), compared on this run with base58.Encode/Decode, cipher.DecodeBase58Address, AddressFromBytes, Address.String/Bytes: exhaustively on all byte strings of length <= 1 (thorough: 2) and all texts of <= 2 (thorough: 3) symbols over alphabet+{0,O,I,l,space,0x80,é}, and on structured random inputs",
+        "HTTP API: the real handlers behind api.newServerMux (verif export VerifNewServerMux of C27) with a stub gateway; accepted = 200 or the handler goes on to call the gateway, rejected = 400/422; list parameters are split at commas / Unicode white space by the harness (the documented list syntax) and every token is judged by the model; wallet endpoints and the CLI are not driven",
         "the alphabet in the model is compared on every run with the one read off the implementation (Encode of the single bytes 0..57)",
         "SHA-256 is an oracle: the theorems take any function returning >= 4 bytes; the harness supplies cipher.SumSHA256 digests as data (payload chosen by an independent math/big base58 decoder)",
         "text is modelled as bytes: a Go string decodes only if all its runes are ASCII, where runes = bytes (bytes >= 0x80 and multi-byte runes are in the exhaustive and random malformed streams)",
